@@ -43,6 +43,7 @@ type c07Method struct {
 
 func runC07(w *World, r *Report) {
 	hrResponseHeadersCopied(w, r, "R4")
+	hrHeadersAliasing(w, r, "R4")
 	hrRebuiltEarlyResponse(w, r, "R4")
 	hrCollectedActionsOnlyGrow(w, r, "R5")
 	hrEnsureCopies(w, r, "R4")
